@@ -520,7 +520,7 @@ def run(chk):
         "sizeof(super) and is not modified before it is written; in sqfs_writer_finish the single final "
         "sqfs_super_write dominates the success return and nothing but an append-only padding helper writes after it; "
         "only the writer's init/finish call sqfs_super_write and only it writes at offset 0; the readers reject the "
-        "provisional state; both packers write nothing after finish K11-commitguard: the failure edge of a stage of a packer's main does not reach sqfs_writer_finish and the stage's result is tested before finish is reachable; K2-nosignal: the packers install no signal handler (a caught signal would let the run go on to the commit).")
+        "provisional state; both packers write nothing after finish. K11-commitguard: the failure edge of a stage of a packer's main does not reach sqfs_writer_finish and the stage's result is tested before finish is reachable; K2-nosignal: the packers install no signal handler (a caught signal would let the run go on to the commit).")
     chk.assumptions = ["that every reader rejects every intermediate prefix depends on which bytes the kernel flushed; "
                        "the rules decide the ordering of the writes the process issues"]
     lib = load_program("libsquashfs.la")
